@@ -145,9 +145,7 @@ func (f *Query) UnmarshalXML(d *xml.Decoder, start xml.StartElement) error {
 			XMLName xml.Name `xml:"http://jabber.org/protocol/rsm set"`
 			Max     uint64   `xml:"max"`
 			After   string   `xml:"after"`
-			Before  struct {
-				XMLName xml.Name `xml:"before"`
-			}
+			Before  *string  `xml:"before"`
 		}
 	}{}
 	err := d.DecodeElement(&s, &start)
@@ -177,7 +175,11 @@ func (f *Query) UnmarshalXML(d *xml.Decoder, start xml.StartElement) error {
 	f.IDs, _ = s.Form.GetStrings(fieldIDs)
 	f.Limit = s.Set.Max
 
-	f.Last = s.Set.Before.XMLName.Local == "before"
+	f.Last = s.Set.Before != nil
+	f.PageID = s.Set.After
+	if f.Last {
+		f.PageID = *s.Set.Before
+	}
 	f.Reverse = s.Flip.XMLName.Local == "flip-page"
 	return nil
 }
